@@ -31,6 +31,12 @@ class _Now:
 NOW = _Now()
 
 
+class AmbigNum(float):
+    """round / floor / ceiling of an INTEGER argument: a whole number whose static type the
+    backends disagree about (OData promotes to a decimal type, SQL keeps the integer).  It
+    behaves as a number everywhere except where that type decides the result: div and mod."""
+
+
 class Flags(set):
     """Side channel: mechanisms the evaluation touched (used as finding triggers)."""
 
@@ -69,10 +75,9 @@ def _int_ok(x):
 
 
 def _mix_ok(a, b):
-    """int/float mixing is only pinned while the integer converts exactly to a double."""
-    for x, y in ((a, b), (b, a)):
-        if isinstance(x, int) and isinstance(y, float) and abs(x) > 2 ** 53:
-            return False
+    """Int64 op Double is Double: the integer is converted to the nearest double (as C and
+    Python do) and the arithmetic is IEEE; comparing an integer with a double is exact in
+    Python and in SQLite alike.  Nothing is left unspecified here."""
     return True
 
 
@@ -275,6 +280,13 @@ class Evaluator:
             return UNSPEC
         if not _mix_ok(a, b):
             return UNSPEC
+        amb = (isinstance(a, AmbigNum) and isinstance(b, (int, AmbigNum))) or \
+              (isinstance(b, AmbigNum) and isinstance(a, (int, AmbigNum)))
+        if amb and op in ("div", "mod"):
+            return UNSPEC
+        if amb:
+            r = {"add": a + b, "sub": a - b, "mul": a * b}[op]
+            return AmbigNum(r) if not (math.isinf(r) or math.isnan(r)) else UNSPEC
         if op in ("add", "sub", "mul"):
             r = a + b if op == "add" else a - b if op == "sub" else a * b
             if isinstance(r, int) and not _int_ok(r):
@@ -395,6 +407,10 @@ class Evaluator:
                 return None
             if not _is_num(x) or abs(x) > 2 ** 52:
                 return UNSPEC
+            if isinstance(x, (int, AmbigNum)):
+                if name == "round" and x < 0:
+                    self.flags.add("round-negative")
+                return AmbigNum(x)          # already whole; only its type is in question
             if name == "floor":
                 return float(math.floor(x))
             if name == "ceiling":
